@@ -128,6 +128,7 @@ type HarnessSpec struct {
 	Enumerate bool   `json:"enumerate"` // enumerate all models of known-finding obligations
 	Split     map[string][2]int64 `json:"split,omitempty"` // labels enumerated concretely (cube splitting): label -> [lo,hi]
 	Procs     int    `json:"procs,omitempty"` // worker processes for cubes
+	Histories bool   `json:"histories,omitempty"` // run twice (vrt.HistoryStep() false / true) and require equal vrt.Observe values
 	index     int    // position in the registry (addresses the entry for cube workers)
 	// known-finding handling: assertions whose message starts with "KF:" are expected-sat
 }
@@ -224,6 +225,34 @@ func (w *World) runHarnessOnce(spec HarnessSpec, ro runOpts, fixed map[string]in
 	terms0 := TS.nextID
 	lift0 := TS.liftOps
 	ex.callFunction(fn, nil, nil, True)
+	var ex2 *Exec
+	if spec.Histories {
+		// the same harness again with a preceding history; inputs are the same solver variables (same labels)
+		ex2 = w.newExecWithInit()
+		ex2.fixed = fixed
+		ex2.history = true
+		ex2.callFunction(fn, nil, nil, True)
+		ex.assumptions = append(ex.assumptions, ex2.assumptions...)
+		ex.panics = append(ex.panics, ex2.panics...)
+		ex.unwinds = append(ex.unwinds, ex2.unwinds...)
+		for _, a := range ex2.asserts {
+			a.Msg = a.Msg + " [with history]"
+			ex.asserts = append(ex.asserts, a)
+		}
+		known := map[string]bool{}
+		for _, n := range ex.nondets {
+			known[n.Label] = true
+		}
+		for _, n := range ex2.nondets {
+			if !known[n.Label] {
+				ex.nondets = append(ex.nondets, n)
+			}
+		}
+		for f := range ex2.funcsSeen {
+			ex.funcsSeen[f] = true
+		}
+		ex.instrCount += ex2.instrCount
+	}
 	rep.ExecSecs = time.Since(t0).Seconds()
 	rep.Instrs = ex.instrCount
 	rep.Terms = TS.nextID - terms0
@@ -258,6 +287,19 @@ func (w *World) runHarnessOnce(spec HarnessSpec, ro runOpts, fixed map[string]in
 			b.Obls = append(b.Obls, &Obligation{Name: fmt.Sprintf("reach(%s)#%d", a.Msg, i), Kind: "reach", Formula: a.G, Expect: VSat})
 		case "reach":
 			b.Obls = append(b.Obls, &Obligation{Name: fmt.Sprintf("%s#%d", a.Msg, i), Kind: "reach", Formula: a.G, Expect: VSat})
+		}
+	}
+	if ex2 != nil {
+		byLabel := map[string]observeRec{}
+		for _, o := range ex2.observes {
+			byLabel[o.Label] = o
+		}
+		for _, o := range ex.observes {
+			o2, ok := byLabel[o.Label]
+			if !ok {
+				continue
+			}
+			b.Obls = append(b.Obls, &Obligation{Name: "history-free: " + o.Label, Kind: "history", Formula: And(o.G, o2.G, valuesDiffer(o.V, o2.V)), Expect: VUnsat})
 		}
 	}
 	if len(ex.panics) > 0 {
